@@ -39,7 +39,23 @@ def gen_calls(rng, n):
             c["post"] = [[[lab], 1], [[lab], 0]]
             if "initial_state" in c["kwargs"]:
                 c["kwargs"].pop("initial_state")
+        if c["terms"] and rng.random() < 0.1:
+            c["den"] = c.get("den", 1) * 2 ** 43          # coefficients of the order 1e-13 at ordinary temperatures: exp(-dE/T) ~ 1
+        if isinstance(c["kwargs"].get("schedule"), list) and c["kwargs"]["schedule"] and rng.random() < 0.1:
+            c["kwargs"]["schedule"] = [rng.choice([1e300, 1e-300, 1e308]) if T_ > 0 else T_ for T_ in c["kwargs"]["schedule"]]
+        if isinstance(c["kwargs"].get("schedule"), list) and rng.random() < 0.3:
+            c[rng.choice(["sched_np", "sched_iter", "sched_tuple", "sched_range"])] = True      # every kind of iterable of floats
+        if rng.random() < 0.2:
+            c["in_order_form"] = rng.choice(["int", "np"])
         out.append(c)
+    # sizes around the powers of two (and exactly 64 spins): Matrix models whose largest label fixes the size
+    nid = max([c["id"] for c in out] + [0]) + 1
+    for fn, kind in (("anneal_quso", "QUSOMatrix"), ("anneal_qubo", "QUBOMatrix"), ("anneal_puso", "PUSOMatrix"), ("anneal_pubo", "PUBOMatrix")):
+        for top in (31, 32, 63, 64, 65, 127, 128):
+            out.append({"id": nid, "fn": fn, "kind": kind, "terms": [[[0], 1], [[top], -1], [[0, top], 2], [[1, top // 2], -1]], "den": 1,
+                        "labels": {}, "kwargs": {"schedule": [2.0, 1.0, 0.0], "in_order": nid % 2 == 0, "seed": nid, "num_anneals": 2},
+                        "trace": False, "twice": False})
+            nid += 1
     return out
 
 
